@@ -10,4 +10,7 @@ impl<T: Tweenable> Parameter<T> {
 		match &self.state { State::Tweening { time, .. } => Some(*time), _ => None }
 	}
 	pub(crate) fn kv_is_stagnant(&self) -> bool { self.stagnant }
+	pub(crate) fn kv_delay_remaining(&self) -> Option<Duration> {
+		match &self.state { State::Tweening { tween: Tween { start_time: StartTime::Delayed(r), .. }, .. } => Some(*r), _ => None }
+	}
 }
